@@ -22,17 +22,18 @@ type c12Case struct {
 }
 
 func c12(c *vc.Ctx) {
-	maxLen := vc.Pick(c, 4, 5)
+	maxLen := 4
+	len5 := vc.Pick(c, 0, 5) // thorough: length-5 sequences over the reduced alphabet c12Alphabet5
 	depth := 2
 	coreOnly := vc.Pick(c, true, false)
 	unclosedLen := vc.Pick(c, 2, 3)
 	stride := uint32(vc.Pick(c, 8000, 60000))
 	progs := c12Programs(depth, coreOnly)
-	c.Rule = fmt.Sprintf("(a) every token sequence of length <= %d over the %d-token shared core alphabet %q joined by single spaces (a here-document token gets its body after the next newline token or at the end); "+
+	c.Rule = fmt.Sprintf("(a) every token sequence of length <= %d over the %d-token shared core alphabet %q joined by single spaces (a here-document token gets its body after the next newline token or at the end)%s; "+
 		"(b) the %d programs of the token-level shared core grammar (c12_gen.go: %d templates, %d word atoms, nesting depth %d, nested statements restricted to the core subset: %v) and every single-token mutation of each (delete token i, duplicate it, swap i/i+1, insert each alphabet token at every position), deduplicated by text; "+
 		"(c) every sequence of length <= %d containing the here-document token, rendered without any here-document body (unclosed here-documents; one real shell process per case); "+
 		"each program is judged twice: Parse(Variant(LangBash)) against bash -n and Parse(Variant(LangPOSIX)) against dash -n; an evaluation is one (program, language) pair",
-		maxLen, len(c12Alphabet), c12Alphabet, len(progs), len(c12Templates), len(c12Words), depth, coreOnly, unclosedLen)
+		maxLen, len(c12Alphabet), c12Alphabet, map[bool]string{false: "", true: fmt.Sprintf(", and every sequence of length 5 over the %d-token sub-alphabet %q", len(c12Alphabet5), c12Alphabet5)}[len5 == 5], len(progs), len(c12Templates), len(c12Words), depth, coreOnly, unclosedLen)
 	c.Assumptions = []string{
 		"bash 5.2.15 and the installed dash are the reference shells; acceptance by a shell is judged as the repository's confirmParse does: `<shell> -n` with the program on stdin, rejected iff non-zero exit status or a non-empty stderr line without \"warning:\"",
 		"throughput: one long-lived process per shell and batch parses each case without executing it (eval of `return 0; __g() { CASE\\n}` and of `return 0; if false; then CASE\\nfi`; accepted iff both parse); this in-process verdict is validated against real `<shell> -n` processes: every in-process ACCEPT is re-judged by `<shell> -n` on the concatenation of the accepted cases of the batch (bisecting on rejection), every in-process REJECT whose text hash falls on a deterministic stride is re-judged by its own process, and every divergence from the parser is re-judged by its own process before it is reported (counters wrapper_*); remaining in-process REJECT verdicts that agree with the parser are trusted on the strength of that validation",
@@ -48,19 +49,19 @@ func c12(c *vc.Ctx) {
 			emit(c12Case{toks, "bash", kind, noflush})
 			emit(c12Case{toks, "posix", kind, noflush})
 		}
-		seqs := func(lo, hi int, f func([]string)) {
+		seqs := func(alpha []string, lo, hi int, f func([]string)) {
 			for n := lo; n <= hi; n++ {
 				idx := make([]int, n)
 				for {
 					toks := make([]string, n)
 					for i, j := range idx {
-						toks[i] = c12Alphabet[j]
+						toks[i] = alpha[j]
 					}
 					f(toks)
 					k := n - 1
 					for k >= 0 {
 						idx[k]++
-						if idx[k] < len(c12Alphabet) {
+						if idx[k] < len(alpha) {
 							break
 						}
 						idx[k] = 0
@@ -73,9 +74,9 @@ func c12(c *vc.Ctx) {
 			}
 		}
 		// (a) up to length 4
-		seqs(0, min(maxLen, 4), func(t []string) { both(t, "seq", false) })
+		seqs(c12Alphabet, 0, maxLen, func(t []string) { both(t, "seq", false) })
 		// (c) unclosed here-documents
-		seqs(1, unclosedLen, func(t []string) {
+		seqs(c12Alphabet, 1, unclosedLen, func(t []string) {
 			for _, x := range t {
 				if x == "<<H" {
 					both(t, "unclosed", true)
@@ -103,8 +104,8 @@ func c12(c *vc.Ctx) {
 		}
 		seen = nil
 		// (a) length 5 last, so that a budget overrun cuts the tail of this part only
-		if maxLen >= 5 {
-			seqs(5, maxLen, func(t []string) { both(t, "seq", false) })
+		if len5 == 5 {
+			seqs(c12Alphabet5, 5, 5, func(t []string) { both(t, "seq", false) })
 		}
 	}
 
@@ -183,11 +184,13 @@ func c12Judge(c *vc.Ctx, sh c12Shell, lang string, batch []c12Case, idx []int, f
 		}
 		res, err := sh.batch(ws)
 		if err != nil {
-			panic(err) // vc falls back to one case at a time (real processes)
+			// not judged: counted below as skipped, and the run is not exhaustive
+			c.CapNote("%s batch driver failed for %d cases: %v", lang, len(wrapped), err)
+			res = make([]byte, len(wrapped))
 		}
 		var acc []int
 		for j, k := range wrapped {
-			judged[k] = true
+			judged[k] = res[j] != 0
 			switch res[j] {
 			case '3':
 				accept[k] = true
